@@ -128,9 +128,10 @@ func runReportWriter(a []string) (result string) {
 			return fmt.Sprintf("ok diff row=%d cells=%d columns=%d", k, len(row)-1, len(rep.Columns))
 		}
 		if first >= 0 && first+k < len(snaps) {
-			want := fmt.Sprintf("new Date(%q)", snaps[first+k].Date.Format(rep.DateFormat))
-			if row[0] != want {
-				return fmt.Sprintf("ok diff row=%d date=%s snapshot-date=%s", k, strings.ReplaceAll(row[0], " ", "_"), strings.ReplaceAll(want, " ", "_"))
+			// independent of the report's own DateFormat: the cell must be a date literal the page's script can read
+			// and it must denote the snapshot's calendar day
+			if !rendersDay(row[0], snaps[first+k].Date) {
+				return fmt.Sprintf("ok diff row=%d date=%s snapshot-date=%s", k, strings.ReplaceAll(row[0], " ", "_"), snaps[first+k].Date.Format("2006-01-02"))
 			}
 		}
 		for j := range rep.Columns {
@@ -215,4 +216,25 @@ func runWriters(a []string) (result string) {
 func init() {
 	extraHandlers["WRITERS"] = runWriters
 	extraHandlers["REPORTW"] = runReportWriter
+}
+
+// jsDateLayouts are date formats that `new Date("…")` reads as the calendar day they spell
+var jsDateLayouts = []string{"2006-01-02", time.RFC3339, "2006-01-02T15:04:05", "2006/01/02", "01/02/2006", "Jan 2, 2006", "January 2, 2006", "2 Jan 2006", "Mon Jan 2 2006", "Mon, 02 Jan 2006"}
+
+// rendersDay: cell is `new Date("<text>")` and <text> spells the calendar day of d (in d's own zone)
+func rendersDay(cell string, d time.Time) bool {
+	if !strings.HasPrefix(cell, "new Date(\"") || !strings.HasSuffix(cell, "\")") {
+		return false
+	}
+	text := cell[len("new Date(\"") : len(cell)-2]
+	for _, l := range jsDateLayouts {
+		if t, err := time.Parse(l, text); err == nil {
+			y, m, dd := t.Date()
+			y2, m2, d2 := d.Date()
+			if y == y2 && m == m2 && dd == d2 {
+				return true
+			}
+		}
+	}
+	return false
 }
